@@ -26,6 +26,7 @@ PROPS = {
     "C01": ("p_c01", "Nsl.Props.C01", [], SIM),
     "C02": ("p_c02", "Nsl.Props.C02", [], ["Nsl/Model/Opt.lean", "Nsl/Model/VM.lean", "Nsl/Model/IR.lean", "Nsl/Model/Val.lean", "Nsl/Proofs/VMSteps.lean", "Nsl/Proofs/Opt.lean", "Nsl/Props/C02.lean"]),
     "C03": ("p_c03", "Nsl.Props.C03", [], SIM + ["Nsl/Props/C03.lean"]),
+    "C04": ("p_c04", "Nsl.Props.C04", [], ["Nsl/Model/VM.lean", "Nsl/Model/Val.lean", "Nsl/Model/Lower.lean", "Nsl/Proofs/StepLemmas.lean", "Nsl/Props/C04.lean"]),
     "C15": ("p_c15", "Nsl.Props.C15", [], SIM + ["Nsl/Props/C15.lean"]),
     # id: (python module, theorem module, [table-obligation modules], model source files to audit)
     "C08": ("p_c08", "Nsl.Props.C08", ["Nsl.Props.GenC08"], ["Nsl/Model/Prec.lean", "Nsl/Proofs/Prec.lean", "Nsl/Props/C08.lean", "Nsl/Props/GenC08.lean"]),
@@ -36,6 +37,8 @@ PROPS = {
     "C13": ("p_c13", "Nsl.Props.C13", [], ["Nsl/Model/Static.lean", "Nsl/Proofs/Static.lean", "Nsl/Props/C13.lean"]),
     "C14": ("p_c14", "Nsl.Props.C14", [], ["Nsl/Model/WF.lean", "Nsl/Proofs/WF.lean", "Nsl/Props/C14.lean", "Nsl/Model/IR.lean"]),
     "C16": ("p_c16", "Nsl.Props.C16", [], ["Nsl/Model/Link.lean", "Nsl/Proofs/Link.lean", "Nsl/Props/C16.lean"]),
+    "C17": ("p_c17", "Nsl.Props.C17", [], ["Nsl/Model/VM.lean", "Nsl/Proofs/VMSteps.lean", "Nsl/Props/C17.lean"]),
+    "C18": ("p_c18", "Nsl.Props.C18", [], ["Nsl/Model/Lower.lean", "Nsl/Model/Overload.lean", "Nsl/Model/Link.lean", "Nsl/Props/C18.lean"]),
     "C19": ("p_c19", "Nsl.Props.C19", [], ["Nsl/Model/Leb.lean", "Nsl/Proofs/Leb.lean", "Nsl/Props/C19.lean"]),
     "C20": ("p_c20", "Nsl.Props.C20", ["Nsl.Props.GenC20"], ["Nsl/Model/SrcMap.lean", "Nsl/Proofs/SrcMap.lean", "Nsl/Props/C20.lean", "Nsl/Props/GenC20.lean"]),
 }
